@@ -10,7 +10,7 @@
         independently of the model -- K_P: no panic (tag 2; tag 10+k inside
         known-finding class k) and, for the ingest path, the Query dump
         unchanged across a rejected message (tag 3). *)
-From Gnmi Require Import Base.Prelude Total.IngestModel Total.SubReqModel
+From Gnmi Require Import Base.Prelude Total.IngestModel Total.StreamModel Total.SubReqModel
   Total.ClientRecvModel Total.CliDisplayModel.
 Local Open Scope Z_scope.
 
@@ -245,6 +245,7 @@ Inductive case :=
         (o : oclass) (evs : list event) (leaves : list path)
 | CCli (jvalid : list string) (dt : dtype) (qt : qtype) (with_ts : bool) (rs : list resp)
        (o : oclass) (recs : list drec)
+| CStream (items : list (notif * N * (oclass * bool)))   (* fed notification, duplicate count; outcome, target gone *)
 | CMgr (callbacks : bool) (rs : list (resp * (oclass * N))).   (* callbacks configured or nil *)   (* per response: outcome, callback (0 none, 1 update, 2 sync) *)
 
 Definition jv_of (l : list string) (s : string) : bool := existsb (String.eqb s) l.
@@ -290,6 +291,17 @@ Fixpoint check_mgr (cb : bool) (i : nat) (rs : list (resp * (oclass * N))) : lis
       check_mgr cb (S i) rest
   end.
 
+Fixpoint check_stream (i : nat) (items : list (notif * N * (oclass * bool))) : list (nat * N) :=
+  match items with
+  | [] => []
+  | (n, dup, (o, gone)) :: rest =>
+      let m := stream_post dup n in
+      (if oclass_eqb o (oclass_of m) && Bool.eqb gone (match m with Ok b => b | _ => false end)
+       then [] else [(i, 1%N)]) ++
+      (match o with OPanic => [(i, 2%N)] | _ => [] end) ++
+      check_stream (S i) rest
+  end.
+
 Definition check_case (c : case) : list (nat * N) :=
   match c with
   | CIngest opts targets steps =>
@@ -323,6 +335,7 @@ Definition check_case (c : case) : list (nat * N) :=
        | OPanic => map (fun t => (0%nat, t)) (panic_tag (if class_cli dt rs then 5%N else 0%N))
        | _ => []
        end)
+  | CStream items => check_stream 0 items
   | CMgr cb rs => check_mgr cb 0 rs
   end.
 
